@@ -309,6 +309,10 @@ def _textlike_classes():
 
 
 TEXTLIKE = _textlike_classes()
+# class names that place the class in a submodule which is NOT loaded although its package is: nothing the peer says may make
+# the victim load it
+BAIT_MODULES = ["encodings.rot_13", "encodings.punycode", "encodings.bz2_codec", "encodings.uu_codec", "json.tool", "email.mime.audio", "xml.dom.minidom"]
+BAIT_NAMES = [m + "." + k for m in BAIT_MODULES for k in ("Codec", "X")]
 METHOD_NAMES = ["__call__", "__len__", "__iter__", "__next__", "__getitem__", "__class__", "__init__", "__del__", "____conn__",
                 "__getattribute__", "__slots__", "__dict__", "__eq__", "__hash__", "__enter__", "__exit__", "__reduce_ex__",
                 "__init_subclass__", "__set_name__", "__array__", "__getslice__", "mro", "x", "", 5, None, b"bytes", ("t",),
@@ -349,7 +353,7 @@ def gen_boxed(rng, cli, vocab, depth):
         return (rc.LABEL_LOCAL_REF, gen_idpack(rng, cli, vocab))
     if c < 11:
         name = rng.choice(["builtins.list", "builtins.function", "builtins.dict", "builtins.type", "evil.Klass", "builtins.object",
-                           vocab["canary_module"] + ".Evil", "checks.c07_hostile_peer.Vault", "os.system", 5, None])
+                           vocab["canary_module"] + ".Evil", "checks.c07_hostile_peer.Vault", "os.system", 5, None] + BAIT_NAMES[:4] + [rng.choice(BAIT_NAMES)])
         return (rc.LABEL_REMOTE_REF, (name, rng.randrange(1, 10 ** 6), rng.choice([0, rng.randrange(1, 10 ** 6)])))
     return rng.choice([(rng.randrange(-2, 9), gen.gen_plain(rng, 3, surrogates=False)), (rc.LABEL_TUPLE, 5), (rc.LABEL_LOCAL_REF, None),
                        (rc.LABEL_REMOTE_REF, ("a",)), (rc.LABEL_REMOTE_REF, 7), (1, 2, 3), (), "notabox", (rc.LABEL_TUPLE, ((1,),))])
@@ -517,7 +521,9 @@ def session(ctx, rng, idx, vocab_base):
     cli = RawClient(net)
     nmsg = 0
     ended = False
-    with canary.watch(needles=("rv_evil_", vocab["canary_module"]), all_threads=True) as sc, canary.ImportSpy() as spy:
+    for m in BAIT_MODULES:
+        sys.modules.pop(m, None)
+    with canary.watch(needles=("rv_evil_", vocab["canary_module"]) + tuple(BAIT_MODULES), all_threads=True) as sc, canary.ImportSpy() as spy:
         th.start()
         # legitimate opening moves so that identifiers can be harvested
         cli.send(rc.MSG_REQUEST, 1, (rc.HANDLERS["GETROOT"], (rc.LABEL_VALUE, ())))
@@ -613,7 +619,8 @@ def session(ctx, rng, idx, vocab_base):
         ctx.violation("C07/audit/%s" % bad_audit[0][0], "audit event %s mentions peer-supplied content: %r" % (bad_audit[0][0], bad_audit[0][1][:100]), wit)
     if sc.of_kind("pickle.find_class"):
         ctx.violation("C07/audit/unpickle", "the serving side unpickled something", wit)
-    evil_imports = [n for n in spy.names if isinstance(n, str) and (n.startswith("rv_evil_") or n == vocab["canary_module"])]
+    evil_imports = [n for n in spy.names if isinstance(n, str) and (n.startswith("rv_evil_") or n == vocab["canary_module"] or n in BAIT_MODULES)]
+    evil_imports += [m for m in BAIT_MODULES if m in sys.modules]
     if evil_imports:
         ctx.violation("C07/import-attempt", "the serving side tried to import %r named by the peer" % (evil_imports[:2],), wit)
     if vocab["import_log"]:
